@@ -8,6 +8,9 @@ use crate::vt::{Ev, Vt};
 pub struct RunModel {
     pub vt: Vt,
     pub sgr: Sgr,
+    /// set (sticky) when an SGR sequence outside the well-formed grammar was met:
+    /// its meaning is not defined by the property, the product cannot be followed further
+    pub ill_formed: bool,
 }
 
 pub type Run = (Sgr, String);
@@ -37,8 +40,14 @@ impl RunModel {
                     Ev::Execute(b) if matches!(b, 0x09 | 0x0a | 0x0c | 0x0d) => {
                         runs.push((self.sgr, (b as char).to_string()))
                     }
+                    Ev::Csi { byte: b'm', ignore: true, inter, .. } if inter.is_empty() => {
+                        // more than 32 parameters: outside what the statement defines
+                        self.ill_formed = true;
+                    }
                     Ev::Csi { params, inter, ignore, byte: b'm' } if inter.is_empty() && !ignore => {
-                        self.sgr.apply(&params);
+                        if !self.sgr.apply(&params) {
+                            self.ill_formed = true;
+                        }
                     }
                     _ => {}
                 }
@@ -48,6 +57,6 @@ impl RunModel {
     }
 
     pub fn canon(&self) -> RunModel {
-        RunModel { vt: self.vt.canon(), sgr: self.sgr }
+        RunModel { vt: self.vt.canon(), sgr: self.sgr, ill_formed: self.ill_formed }
     }
 }
